@@ -1,8 +1,8 @@
 """C11 — whatever the indexer tokenizes, the query language can find.
 
-Spec: Tokenize.tla.  Values are sequences of character classes (30 classes: ASCII lower/upper/digit, '_', '*',
+Spec: Tokenize.tla.  Values are sequences of character classes (31 classes: ASCII lower/upper/digit, '_', '*',
 separators, '/', the three quote characters, backslash, non-ASCII letters with same-width and different-width lower
-case, non-ASCII digits/numbers/symbols of 2 and 3 bytes, 4-byte letters (uncased / cased), digits and symbols, invalid
+case, non-ASCII digits/numbers/symbols of 2 and 3 bytes (incl. no-break space, NEL, BOM, line/paragraph separator), 4-byte letters (uncased / cased), digits and symbols, invalid
 byte; and the bytes the indexer takes verbatim while some spelling of a string literal gives them a meaning of their own,
 one class per reason: carriage return (dropped from a raw string by the Go rules), newline (illegal in a Go "..." literal),
 tab/VT/FF, NUL, the other control bytes, and U+E000 which the lexer itself uses for the wildcard).  A literal is written in
@@ -138,7 +138,7 @@ def run(ctx):
         "element, single-type in the old `type:` or the `types:` form or multi-type text+keyword+path with the main type first or last; "
         "type keyword/text/path/exists, "
         "case-sensitive on/off, MaxTokenSize and per-field size at EVERY byte position 1..len and unlimited, partial indexing on/off). "
-        "Exhaustive: all sequences of <= 2 of the 30 classes (widths 1-4 bytes; incl. the control-byte classes cr,lf,ws,z0,cc and "
+        "Exhaustive: all sequences of <= 2 of the 31 classes (widths 1-4 bytes; incl. the control-byte classes cr,lf,ws,z0,cc and "
         "U+E000) at top level and inside an object (single- and "
         "multi-type), all sequences of <= 2 of {lo,up,sp,sl,dq,bs,d3,l4,s4,iv,cr,lf,z0} inside tags / nested elements; length 3 over the "
         "quoting alphabet {lo,st,sp,dd,dq,sq,bt,bs} and over the control alphabet {lo,cr,lf,ws,z0,cc,pu,bs,st,dq}"
